@@ -145,6 +145,14 @@ theorem dispatch_index (env : DEnv) (s : DState) (caller : SessKey) (req : Nat) 
   · exact syncError_index ..
   · exact armTimer_index ..
 
+theorem dispatchL_index (env : DEnv) (s : DState) (caller : SessKey) (req : Nat) (callee : SessKey) (invReq : Nat)
+    (v : Invk) (timeout : Nat) (m : Msg) : (dispatchL env s caller req callee invReq v timeout m).st.d.index = s.d.index := by
+  unfold dispatchL
+  split
+  · exact syncError_index ..
+  · show (armTimer env (preCancel s v timeout) caller req v timeout).d.index = s.d.index
+    rw [armTimer_index, preCancel_d]
+
 theorem syncCall_index (env : DEnv) (s : DState) (caller : SessKey) (req : Nat) (opts : Dict) (proc : String)
     (args : List WVal) (kw : Dict) (rnd : Nat) :
     (syncCall env s caller req opts proc args kw rnd).st.d.index = s.d.index := by
@@ -155,7 +163,7 @@ theorem syncCall_index (env : DEnv) (s : DState) (caller : SessKey) (req : Nat) 
     · split
       · rfl
       · unfold laterChunk
-        exact dispatch_index env { s with d := s.d.setInv _ } ..
+        exact dispatchL_index env { s with d := s.d.setInv _ } ..
   · split
     · rfl
     · split
@@ -413,6 +421,13 @@ theorem dispatch_aborts (env : DEnv) (s : DState) (caller : SessKey) (req : Nat)
   · exact syncError_aborts ..
   · rfl
 
+theorem dispatchL_aborts (env : DEnv) (s : DState) (caller : SessKey) (req : Nat) (callee : SessKey) (invReq : Nat)
+    (v : Invk) (timeout : Nat) (m : Msg) : (dispatchL env s caller req callee invReq v timeout m).aborts = [] := by
+  unfold dispatchL
+  split
+  · exact syncError_aborts ..
+  · rfl
+
 theorem syncCall_aborts (env : DEnv) (s : DState) (caller : SessKey) (req : Nat) (opts : Dict) (proc : String)
     (args : List WVal) (kw : Dict) (rnd : Nat) :
     ∀ k ∈ (syncCall env s caller req opts proc args kw rnd).aborts, k = caller := by
@@ -424,7 +439,7 @@ theorem syncCall_aborts (env : DEnv) (s : DState) (caller : SessKey) (req : Nat)
       · simp [progressAbort]
       · unfold laterChunk
         simp only
-        rw [dispatch_aborts]; simp
+        rw [dispatchL_aborts]; simp
   · split
     · simp
     · split
